@@ -445,3 +445,240 @@ def impure_constructs(b):
                 if a.get("k") == "const" and "static" in a:
                     bad.append("static")
     return sorted(set(bad))
+
+
+def structural_clone(crate, adt):
+    """(ok, why) for the Clone impl of `adt`: derived, or hand-written such that clone() builds the value from a copy of every
+    field of self, and clone_from (when provided) gives every field of self the corresponding field of the source on
+    every path: by `self.f.clone_from(&source.f)`, by `self.f = <copy of source.f>`, or by `*self = source.clone()`.
+    A field paired with a different field of the source, or left out on some path, is not structural."""
+    from .absint import strip_mem
+    imps = [i for i in crate.impls if i.get("of_trait") and str(i.get("trait") or "").endswith("clone::Clone") and i.get("self_adt") == adt["key"]]
+    if not imps:
+        return False, "no Clone impl"
+    imp = imps[0]
+    if imp.get("derived"):
+        return True, "derived"
+    nf = len(fields_of(adt))
+    items = {it["name"]: crate.by_key.get(it["key"]) for it in imp["items"]}
+
+    def copy_of(v, base, i):
+        """v is a copy of field i of *base"""
+        v = strip_mem(v)
+        want = ("load", None, ("field", base, i))
+        seen = 0
+        while isinstance(v, tuple) and v and v[0] == "call" and str(v[1]).rsplit("::", 1)[-1] in ("clone", "to_vec", "to_owned", "into") and seen < 4:
+            a = [x for x in v[2] if not (isinstance(x, tuple) and x and x[0] == "mem")]
+            if not a:
+                return False
+            v = a[0]
+            if isinstance(v, tuple) and v and v[0] == "ref":
+                v = ("load", None, v[1]) if v[1][0] != "constval" else v[1][1]
+            seen += 1
+        return v == want
+
+    cb = items.get("clone")
+    if cb is None:
+        return False, "no clone method"
+    I = analyse(cb)
+    selfp = ("deref", ("param", 1, I.names.get(1)))
+    for st in I.final_states:
+        r = ret_term(st)
+        if strip_mem(r) == ("load", None, selfp):
+            continue   # *self
+        if not (isinstance(r, tuple) and r and r[0] == "agg" and isinstance(r[1], tuple) and r[1][0] == "adt" and len(r[2]) == nf):
+            return False, "clone returns %s" % tstr(r)[:80]
+        for i, fv in enumerate(r[2]):
+            if not copy_of(fv, selfp, i):
+                return False, "field %d of the copy is %s" % (i, tstr(fv)[:60])
+    fb = items.get("clone_from")
+    if fb is not None:
+        I = analyse(fb)
+        dst = ("deref", ("param", 1, I.names.get(1)))
+        src = ("deref", ("param", 2, I.names.get(2)))
+        def fld(x, base):
+            """field index when x is a reference into (a part of) a field of *base"""
+            if not (isinstance(x, tuple) and x and x[0] == "ref"):
+                return None
+            pl = x[1]
+            while isinstance(pl, tuple) and pl and pl[0] in ("index", "range", "slicefrom", "deref") and len(pl) > 1 and pl != base:
+                pl = pl[1]
+            return pl[2] if isinstance(pl, tuple) and pl and pl[0] == "field" and pl[1] == base else None
+
+        for st in I.final_states + [s_ for l_ in I.backedge_states.values() for s_ in l_][:0]:
+            done = set()
+            proj_touch, src_read = set(), set()
+            for e in st.event_list():
+                if e.kind == "store":
+                    pl = e.place
+                    if pl == dst:
+                        # *self = source.clone()
+                        v = strip_mem(e.val)
+                        if v == ("load", None, src):
+                            done |= set(range(nf))
+                            continue
+                        if v[0] == "call" and str(v[1]).endswith("::clone") and [x for x in v[2] if x[0] != "mem"][:1] in ([("ref", src)], [src]):
+                            done |= set(range(nf))
+                            continue
+                        return False, "clone_from assigns *self := %s" % tstr(e.val)[:60]
+                    if pl[0] == "field" and pl[1] == dst:
+                        if not copy_of(e.val, src, pl[2]):
+                            return False, "clone_from sets field %d to %s" % (pl[2], tstr(e.val)[:60])
+                        done.add(pl[2])
+                elif e.kind == "call":
+                    tys = e.extra.get("argtys") or []
+
+                    def fld(x, base):
+                        """field index when x is a reference into (a part of) a field of *base"""
+                        if not (isinstance(x, tuple) and x and x[0] == "ref"):
+                            return None
+                        pl = x[1]
+                        while isinstance(pl, tuple) and pl and pl[0] in ("index", "range", "slicefrom", "deref") and len(pl) > 1 and pl != base:
+                            pl = pl[1]
+                        return pl[2] if isinstance(pl, tuple) and pl and pl[0] == "field" and pl[1] == base else None
+
+                    touches = [fld(x, dst) for n_, x in enumerate(e.args) if fld(x, dst) is not None and (n_ >= len(tys) or str(tys[n_]).startswith("&mut"))]
+                    if not touches:
+                        continue   # (reading a field of self — len(), is_empty() — changes nothing)
+                    nm = e.extra.get("name")
+                    if nm in ("deref_mut", "as_mut_slice", "as_mut", "index_mut", "iter_mut", "borrow_mut"):
+                        proj_touch.update(touches)
+                        continue   # a projection: what is done through it shows up as its own call
+                    froms = [fld(x, src) for x in e.args if fld(x, src) is not None]
+                    if nm in ("clone_from", "clone_from_slice", "copy_from_slice") and len(touches) == 1 and froms == touches:
+                        done.add(touches[0])
+                    else:
+                        return False, "clone_from hands field %s of self to %s with field %s of the source" % (touches, nm, froms)
+            # a field copied element by element (`for (d, s) in self.f.iter_mut().zip(source.f.iter()) { d.clone_from(s) }`):
+            # the same field of both sides is walked and nothing else of the source is read into it
+            for e in st.event_list():
+                if e.kind == "call" and e.extra.get("name") in ("iter", "deref", "as_slice", "as_ref", "index"):
+                    src_read.update(x for x in (fld(a_, src) for a_ in e.args) if x is not None)
+            done |= (proj_touch & src_read)
+            if done != set(range(nf)):
+                return False, "clone_from leaves field(s) %s of self as they were on some path" % sorted(set(range(nf)) - done)
+    return True, "hand-written, field by field"
+
+
+def structural_clone_bodies(crate, adt):
+    """keys of the clone / clone_from bodies of a hand-written Clone impl that is verified to be field by field: packs
+    treat them like a derived impl (they may build the aggregate and write its private fields)"""
+    try:
+        ok, _why = structural_clone(crate, adt)
+    except Exception:  # noqa: BLE001
+        return set()
+    if not ok:
+        return set()
+    out = set()
+    for i in crate.impls:
+        if i.get("of_trait") and str(i.get("trait") or "").endswith("clone::Clone") and i.get("self_adt") == adt["key"] and not i.get("derived"):
+            out |= {it["key"] for it in i["items"]}
+    return out
+
+
+def _trait_impl(crate, adt, suffix):
+    for i in crate.impls:
+        if i.get("of_trait") and str(i.get("trait") or "").endswith(suffix) and i.get("self_adt") == adt["key"]:
+            return i
+    return None
+
+
+def structural_eq(crate, adt):
+    """(ok, why) for PartialEq of `adt`: derived, or a hand-written `eq` that is true exactly when every field of self equals
+    the same field of the other operand (operands of each comparison in either order; read-only private helpers such as a
+    debug check are followed)"""
+    imp = _trait_impl(crate, adt, "cmp::PartialEq")
+    if imp is None:
+        return False, "no PartialEq impl"
+    if imp.get("derived"):
+        return True, "derived"
+    items = {it["name"]: crate.by_key.get(it["key"]) for it in imp["items"]}
+    if "ne" in items:
+        return False, "ne is overridden"
+    b = items.get("eq")
+    if b is None:
+        return False, "no eq method"
+    nf = len(fields_of(adt))
+    helpers = [m for m in crate.bodies if not m.is_closure and m.kind in ("Fn", "AssocFn") and m.vis != "pub" and not self_recursive(m) and m.key != b.key]
+    I = analyser(helpers)(b)
+    p1, p2 = ("deref", ("param", 1, I.names.get(1))), ("deref", ("param", 2, I.names.get(2)))
+    from .absint import strip_mem
+
+    def field_cmp(t):
+        """(i, negated) when t compares field i of the two operands"""
+        t = strip_mem(t)
+        if not isinstance(t, tuple) or not t:
+            return None
+        if t[0] == "bin" and t[1] in ("Eq", "Ne"):
+            xs = [t[2], t[3]]
+            neg = t[1] == "Ne"
+        elif t[0] == "call" and "PartialEq" in str(t[1]) and str(t[1]).endswith(("::eq", "::ne")):
+            xs = [x for x in t[2] if not (isinstance(x, tuple) and x and x[0] == "mem")]
+            xs = [("load", None, x[1]) if isinstance(x, tuple) and x and x[0] == "ref" else x for x in xs]
+            neg = str(t[1]).endswith("::ne")
+        else:
+            return None
+        if len(xs) != 2:
+            return None
+        for i in range(nf):
+            a_, b_ = ("load", None, ("field", p1, i)), ("load", None, ("field", p2, i))
+            if xs in ([a_, b_], [b_, a_]):
+                return i, neg
+        return None
+
+    for st in I.final_states:
+        known = {}
+        for f in st.facts:
+            if f[0] in ("eq", "ne") and f[2] in (0, 1):
+                fc = field_cmp(f[1])
+                if fc is not None:
+                    truth = (f[0] == "eq") == bool(f[2])
+                    known[fc[0]] = truth != fc[1]
+        r = ret_term(st)
+        if r == ("int", 1) or r == ("int", True):
+            if not all(known.get(i) is True for i in range(nf)):
+                return False, "eq returns true on a path that has not found every field equal"
+        elif r == ("int", 0) or r == ("int", False):
+            if not any(known.get(i) is False for i in range(nf)):
+                return False, "eq returns false on a path that has not found a field different"
+        else:
+            fc = field_cmp(r)
+            if fc is None or fc[1]:
+                return False, "eq returns %s" % tstr(r)[:80]
+            if not all(known.get(i) is True for i in range(nf) if i != fc[0]):
+                return False, "eq returns the comparison of field %d without the other fields being equal" % fc[0]
+    return True, "hand-written, field by field"
+
+
+def structural_hash(crate, adt):
+    """(ok, why) for Hash of `adt`: derived, or `hash` feeds every field, in order, to the hasher and nothing else"""
+    imp = _trait_impl(crate, adt, "hash::Hash")
+    if imp is None:
+        return False, "no Hash impl"
+    if imp.get("derived"):
+        return True, "derived"
+    items = {it["name"]: crate.by_key.get(it["key"]) for it in imp["items"]}
+    b = items.get("hash")
+    if b is None or "hash_slice" in items:
+        return False, "no plain hash method"
+    nf = len(fields_of(adt))
+    I = analyse(b)
+    p1 = ("deref", ("param", 1, I.names.get(1)))
+    for st in I.final_states:
+        hs = [e for e in st.event_list() if e.kind == "call" and e.extra.get("name") == "hash"]
+        got = [e.args[0][1][2] if isinstance(e.args[0], tuple) and e.args[0][0] == "ref" and isinstance(e.args[0][1], tuple) and e.args[0][1][0] == "field" and e.args[0][1][1] == p1 else None for e in hs]
+        if got != list(range(nf)):
+            return False, "hash feeds fields %s" % got
+    return True, "hand-written, every field in order"
+
+
+def is_readonly_check(crate, b):
+    """a function that cannot influence its caller's values: returns (), takes nothing by &mut, and touches no static,
+    thread-local, interior mutability, IO or unsafe code (a `debug_check(&self)` made of assertions); it can only panic"""
+    if b is None or b.is_closure:
+        return False
+    if str(b.locals[0]["ty"]) != "()":
+        return False
+    if any(str(b.locals[i]["ty"]).startswith("&mut") for i in range(1, b.arg_count + 1)):
+        return False
+    return not impure_constructs(b)
